@@ -543,28 +543,35 @@ func c20BroadcastPrecedes(w *World, wire *wireView, serve *ssa.Function, bc *ssa
 				continue
 			}
 			n++
-			tchain, ok := lift(first)
-			if !ok {
-				return false, ": work of an arm at " + w.Pos(first.Pos()) + " sits in a helper with several call sites"
+			var preceded func(ins ssa.Instruction, depth int) (bool, string)
+			preceded = func(ins ssa.Instruction, depth int) (bool, string) {
+				g := ins.Parent()
+				if site, shared := inB[g]; shared {
+					start := g.Blocks[0]
+					if g == serve {
+						start = head
+					}
+					if ins == site || reachable(start, site, ins) {
+						return false, "can be reached without the broadcast"
+					}
+					return true, ""
+				}
+				if depth > 4 || g == serve || g.Parent() != nil {
+					return false, "could not be related to the broadcast"
+				}
+				sites := w.sitesIn(serve, g)
+				if len(sites) == 0 || w.dynCallable(g) {
+					return false, "sits in a helper whose callers are not all known"
+				}
+				for _, s := range sites {
+					if ok, why := preceded(s, depth+1); !ok {
+						return false, why
+					}
+				}
+				return true, ""
 			}
-			decided := false
-			for _, lv := range tchain {
-				site, shared := inB[lv.fn]
-				if !shared {
-					continue
-				}
-				start := lv.fn.Blocks[0]
-				if lv.fn == serve {
-					start = head
-				}
-				if lv.ins == site || reachable(start, site, lv.ins) {
-					return false, ": the arm work at " + w.Pos(first.Pos()) + " can be reached without the broadcast"
-				}
-				decided = true
-				break
-			}
-			if !decided {
-				return false, ": the arm work at " + w.Pos(first.Pos()) + " could not be related to the broadcast"
+			if ok, why := preceded(first, 0); !ok {
+				return false, ": the arm work at " + w.Pos(first.Pos()) + " " + why
 			}
 		}
 	}
